@@ -313,8 +313,14 @@ def impl_run_ops(kbpk, ops):
 
 
 def _impl_run_ops_body(kb, cur, ops, outs):
+    hdr_obj, blocks_obj = kb.header, kb.header.blocks
     for op in ops:
         k = op[0]
+        if kb.header is not hdr_obj or kb.header.blocks is not blocks_obj:
+            # load / unwrap / wrap work on the caller's Header and Blocks objects in place: a reference the caller holds
+            # (b = kb.header.blocks) must keep showing the object's state
+            outs.append("err:HEADER-OR-BLOCKS-OBJECT-REPLACED")
+            return show_header(kb.header), outs
         if kb.kbpk != cur or type(kb.kbpk) is not type(cur):
             # no operation may rewrite the caller's key-block protection key (the model's st_kbpk only changes by K=)
             outs.append("err:KBPK-ATTRIBUTE-MODIFIED:" + show(bytes(kb.kbpk)))
@@ -344,6 +350,8 @@ def _impl_run_ops_body(kb, cur, ops, outs):
                 outs.append("str:" + show(str(kb)))
         except Exception as e:  # noqa: BLE001
             outs.append("err:" + bucket(e))
+    if kb.header is not hdr_obj or kb.header.blocks is not blocks_obj:
+        outs.append("err:HEADER-OR-BLOCKS-OBJECT-REPLACED")
     return show_header(kb.header), outs
 
 
